@@ -282,20 +282,20 @@ theorem gc_outer_body (fuel : Nat) (rev : Nat → Nat) (priv0 : Loc → Option V
       simp only [decW_encW, Option.bind] at hl
       split at hl <;> cases hl
       rename_i hcl
-      have hstep : lstep rev { x := x, pend := .none, out := out } (.ldNext x.gbkt w 1) =
-          some (mk { x with prev := x.gbkt, iter := w, pc := gcPc rev { x with prev := x.gbkt, iter := w } rp }) := by
-        simp [lstep, hpc, hlg, hgc, hrp, gcPc]
+      obtain ⟨ls0, hls0⟩ : ∃ ls0, ls0 =
+          mk { x with prev := x.gbkt, iter := w, pc := gcPc rev { x with prev := x.gbkt, iter := w } rp } := ⟨_, rfl⟩
+      have hstep : lstep rev { x := x, pend := .none, out := out } (.ldNext x.gbkt w 1) = some ls0 := by
+        rw [hls0]; simp [lstep, hpc, hlg, hgc, hrp, gcPc]
       have hO1 := hrest _ hstep
+      have hlr0 : ∀ evs, lr rev { x := x, pend := .none, out := out }
+          (Event.ld ((Loc.obj B).field "next") (encW w) 1 :: evs) = lr rev ls0 evs := by
+        intro evs; simp only [lr, List.map_cons, lrun, absEv, decW_encW, if_true, ← hgb, hstep]
       rw [hshape]
       lexec [call_is_removed, call_is_removal_owner, pureCall, bind1]
       generalize hE : iterate (exec fuel gcInner) fuel _ rest [] = r
       obtain ⟨o1, rfl, ls1, hl1, hfin⟩ := gc_inner_loop fuel rev priv0 B N gc rp hrev hN hrp _ _ _ _ hE
-        (show GcI rev priv0 B N gc rp _ rest
-            (mk { x with prev := x.gbkt, iter := w, pc := gcPc rev { x with prev := x.gbkt, iter := w } rp }) from by
-          exact ⟨by simp [gcRel_iff, mk, *], rfl, by simp [mk, gcPc], hO1⟩)
-      have hlr0 : ∀ evs, lr rev { x := x, pend := .none, out := out } (Event.ld ((Loc.obj B).field "next") (encW w) 1 :: evs) =
-          lr rev (mk { x with prev := x.gbkt, iter := w, pc := gcPc rev { x with prev := x.gbkt, iter := w } rp }) evs := by
-        intro evs; simp [lr, lrun, absEv, hgb ▸ hstep]
+        (show GcI rev priv0 B N gc rp _ rest ls0 from by
+          subst hls0; exact ⟨by simp [gcRel_iff, mk, *], rfl, rfl, hO1⟩)
       rcases o1 with ⟨ev1, env1, inp1, ctl1⟩
       rcases hfin with hf | ⟨c, hc, hR, hctl⟩
       · dsimp only at hf; subst hf
